@@ -365,6 +365,16 @@ def core_specs():
     add('static-ball', dv=[dict(shape=[2])], rv=[[2]], sets=[[dict(t='norm', p=2, r=1.5)]], bounds=bx,
         rows=[dict(e=[['x', 0, [1, 1]], ['xz', 0, 0, [[1, 0], [0, 1]]], ['z', 0, [1, 0]]], sense='le', rhs=5)],
         obj=dict(kind='minmax', set=0, e=[['x', 0, [-1, -1]], ['xz', 0, 0, [[0.5, 0], [0.5, 1]]]]))
+    # 7b. ellipsoids norm(z/sigma) <= 1: every coefficient of the cone rows is <= 1 / >= 1 in magnitude (the compact
+    #     layout of the SOC dual is only valid for unit coefficients)
+    add('static-ellipsoid-wide', dv=[dict(shape=[3])], rv=[[3]], sets=[[dict(t='norm', p=2, r=1, scale=[0.5, 1, 0.25])]],
+        bounds=[dict(x=0, lo=-2, hi=2)],
+        rows=[dict(e=[['x', 0, [1, 1, 1]], ['xz', 0, 0, [[1, 0, 0], [0, 1, 0], [0, 0, 1]]]], sense='le', rhs=6)],
+        obj=dict(kind='minmax', set=0, e=[['x', 0, [-1, -1, -0.5]], ['xz', 0, 0, [[0.5, 0, 0], [0, 0.5, 0], [0, 0, 0.25]]]]))
+    add('static-ellipsoid-narrow', dv=[dict(shape=[2])], rv=[[2]], sets=[[dict(t='norm', p=2, r=1, scale=[2, 4])]],
+        bounds=[dict(x=0, lo=-2, hi=2)],
+        rows=[dict(e=[['x', 0, [1, 1]], ['xz', 0, 0, [[1, 0], [0, 1]]]], sense='le', rhs=3)],
+        obj=dict(kind='minmax', set=0, e=[['x', 0, [-1, -1]], ['xz', 0, 0, [[0.5, 0], [0, 0.5]]]]))
     # 8. 2-norm ball, dimension 3, scaled/shifted
     add('static-ball3', dv=[dict(shape=[3])], rv=[[3]], sets=[[dict(t='norm', p=2, r=1, scale=[1, 2, 0.5], c=[0.5, 0, 0])]],
         bounds=bx,
